@@ -450,9 +450,12 @@ func ruleF3(c *Ctx, id string) {
 
 // ---------------------------------------------------------------- C03.T1 / C14.D1
 
-func ruleT1(c *Ctx, id string) {
+func ruleT1(c *Ctx, id string) { ruleT1f(c, id, nil, 80) }
+
+// ruleT1f: T1 restricted to the entry points accepted by keep (nil: all).
+func ruleT1f(c *Ctx, id string, keep func(entry string) bool, floor int) {
 	R, P := c.R, c.P
-	R.Rule(id, "every access to a cached inode lies inside its lock's critical section: no field access, method call or argument use of an inode value after a terminator on the transaction that locked it", 80)
+	R.Rule(id, "every access to a cached inode lies inside its lock's critical section: no field access, method call or argument use of an inode value after a terminator on the transaction that locked it", floor)
 	t := c.tsPreamble(id)
 	type agg struct {
 		bad   bool
@@ -462,6 +465,9 @@ func ruleT1(c *Ctx, id string) {
 	}
 	res := map[string]*agg{}
 	for _, e := range sortedEvents(t, "use") {
+		if keep != nil && !keep(e.Entry) {
+			continue
+		}
 		key := fmt.Sprintf("%s|%s", FuncName(e.Fn), e.Detail)
 		a := res[key]
 		if a == nil {
@@ -483,6 +489,9 @@ func ruleT1(c *Ctx, id string) {
 		R.Check(!a.bad, id, k, a.pos, "inode used only while its transaction is live (lock held)", "transaction live on every explored path", a.why+": the lock was released, another transaction may be modifying or freeing the object")
 	}
 	for _, e := range sortedEvents(t, "call-dead") {
+		if keep != nil && !keep(e.Entry) {
+			continue
+		}
 		R.Fail(id, FuncName(e.Fn)+"|finished txn used|"+e.Entry, P.Pos(e.Pos), "a finished transaction is not used for further operations", e.Detail+" (stack "+e.Stack+")")
 	}
 }
